@@ -290,3 +290,10 @@ func loadCaseFile(p string, dst interface{}) error {
 	}
 	return json.Unmarshal(w.Case, dst)
 }
+
+func headStr(s string, n int) string {
+	if len(s) > n {
+		return s[:n]
+	}
+	return s
+}
